@@ -124,9 +124,14 @@ class Hist:
             except Exception as e:  # noqa: BLE001
                 res.append(["raised", type(e).__name__])
             # the selected run is the full run restricted to that output - whatever relatives of this graph were run before
-            if res[0] == "completed" and outs[0] in res[1] and res[-1] != ["completed", {outs[0]: res[1][outs[0]]}]:
+            produced = {o for n_ in g.iter_nodes() for o in n_.outputs}
+            if res[0] == "completed" and outs[0] in res[1] and res[-1] != ["completed", {outs[0]: res[1][outs[0]]}] \
+                    and not (set(sp.bound) & produced) and set(sp.bound) <= set(g._bound):
+                # (not judged: a bound OUTPUT name - known finding F-g's territory - and bindings that live in a nested graph, which
+                #  leave the scope together with their nested-graph node when the selection excludes it)
                 self.violations.append(f"run with select={outs[0]!r} gives {res[-1]}, the same call without select completes with {outs[0]}={res[1][outs[0]]} "
-                                       f"(entry points {g.entrypoints_config}; something remembered for a relative of this graph?)")
+                                       f"(entry points {g.entrypoints_config}; something remembered for a relative of this graph?) "
+                                       f"nodes={[(n_.name, list(n_.inputs), list(n_.outputs), type(n_).__name__) for n_ in g.iter_nodes()]} inputs={inputs} bound={dict(sp.bound)} selected={g.selected}")
         return res
 
     def cool(self, obj):
